@@ -59,6 +59,19 @@ CHECKS.update({
             "DESIGN.md §3 C13"),
 })
 
+CHECKS.update({
+    "C01": ("fault_enumeration",
+            "crash-point enumeration over generated histories: LD_PRELOAD syscall trace -> file-system model -> every effect-log prefix x failure model, recovered by the real strict recovery and compared with the reference model",
+            "Each generated history (writes, batch deletes, metadata updates, manual snapshots, clean restarts; snapshot interval x rotation x capacity x 4 fsync policies) runs once under the syscall tracer; EVERY prefix of its file-system effect log and torn prefixes (1, half, len-1 bytes) of every write is a crash point; each is materialised under process kill and, for fsync-every-write policies, under power loss (drop all unsynced + 2 seeded in-order prefix choices per file/directory) and recovered with the real strict recover: start-up must succeed and the dump must equal model(acknowledged) or model(acknowledged + in-flight). One state in eight is crashed again at every effect of its own recovery. 480 histories / ~140k distinct crash states in the quick tier; complete over the crash points of each generated history.",
+            "Trusts the syscall shim to see every file-system effect (open/write/fsync/fdatasync/rename/unlink/truncate families are interposed) and the flat-directory file-system model. Power-loss model exactly as written in the property. Crash points before the database's initial creation finished are not explored. One listed known finding (C01-F3, partial batch delete) is counted and skipped.",
+            "DESIGN.md §3 C01, §2.4"),
+    "C03": ("fault_enumeration",
+            "model-based property testing with invalid-input classes on every write path + syscall-level storage fault injection; each failing call followed by a live dump and a strict recovery of a copy",
+            "Part invalid: generated histories on a persistent TieredEngine with 9 invalid vector classes (+ index full) on 4 write paths (cold insert, tiered insert, bulk load incl. invalid item inside a valid batch, drain repair), targeting fresh / existing / deleted ids: Err (or item counted failed) => live dump unchanged and strict recovery of a copy equals the pre-call dump; Ok => recoverable. Part storage: see level_note.",
+            "An invalid-class vector that the engine legitimately accepts (Euclidean accepts tiny/huge finite vectors) is treated as an ordinary acknowledged write.",
+            "DESIGN.md §3 C03"),
+})
+
 NOT_APPLICABLE = {
 }
 
